@@ -23,6 +23,7 @@ mod stages;
 mod tsread;
 mod typegen;
 mod util;
+mod vlq;
 
 use std::env;
 
@@ -59,6 +60,7 @@ fn main() {
         "loader-child" => loader::run_child(rest),
         "tsread" => tsread::run(rest),
         "typegen" => typegen::run(rest),
+        "vlq" => vlq::run(rest),
         other => {
             eprintln!("unknown command {other}");
             2
